@@ -2,7 +2,9 @@ package reflection
 
 import (
 	"crypto/sha256"
+	"encoding/binary"
 	"encoding/hex"
+	"hash"
 	"slices"
 	"strings"
 
@@ -22,7 +24,7 @@ func hashNamedProtoBundles(bundles []namedProtoBundle) string {
 
 	h := sha256.New()
 	for _, bundle := range bundles {
-		h.Write(bundle.proto)
+		writeLenPrefixed(h, bundle.proto)
 	}
 
 	return hex.EncodeToString(h.Sum(nil))
@@ -33,10 +35,21 @@ func hashServiceNames(names []protoreflect.FullName) string {
 
 	h := sha256.New()
 	for _, name := range names {
-		h.Write([]byte(name))
+		writeLenPrefixed(h, []byte(name))
 	}
 
 	return hex.EncodeToString(h.Sum(nil))
+}
+
+// writeLenPrefixed writes b to h preceded by its length, so that a sequence of writes is unambiguous:
+// without a delimiter different sets hash equally when their concatenations coincide
+// (services "a.b" + "c" and the single service "a.bc"), and such a change would never be reported.
+func writeLenPrefixed(h hash.Hash, b []byte) {
+	var size [8]byte
+	binary.BigEndian.PutUint64(size[:], uint64(len(b)))
+
+	h.Write(size[:])
+	h.Write(b)
 }
 
 // updatePresentDescriptorSet is used by resolver.retrieveDependencies to update the set of available file descriptors.
